@@ -4,8 +4,10 @@ gaps and missing year files end the run with an error.
 
 Property theorems only. Models: HermesModel/Weather.lean (readers, LoadYear, normalisation passes of
 hermes/weather_input.go), HermesModel/DayLoop.lean (first load, day counter, year roll-over and
-reload of hermes/run.go), HermesModel/Calendar.lean (C12). Lemmas: HermesProofs/Weather.lean,
-HermesProofs/WeatherReaders.lean.
+reload of hermes/run.go), HermesModel/WeatherNorm.lean (the two normalisation passes in place on the
+arrays the readers filled, and the whole run with them), HermesModel/Calendar.lean (C12). Lemmas:
+HermesProofs/Weather.lean, WeatherReaders.lean, WeatherRun.lean (composition over a whole run),
+WeatherNorm.lean, WeatherNormRun.lean (the passes cell by cell, the normalised run).
 
 Reading of the property: `tagNum` = TAG.Index + 1 is the day of the year whose slot is consumed,
 `1900 + j` the year whose arrays are loaded. "Driven by the record of that date" = the slot consumed
@@ -19,6 +21,8 @@ replayed on the implementation by the harness) next to the `…_partial` stateme
 -/
 import HermesProofs.Weather
 import HermesProofs.WeatherReaders
+import HermesProofs.WeatherRun
+import HermesProofs.WeatherNormRun
 namespace Hermes.Weather
 open Hermes.Calendar Hermes.DayLoop
 
@@ -213,21 +217,188 @@ theorem C04_loadYear_error_iff_not_loaded {π : Type} (s : Store π) (cap year :
     loadYear s cap year = none ↔ ∀ i, i < cap → s.jarAt i ≠ year :=
   loadYear_none_iff s cap year
 
-/-- **Weather of the day (one load).** After a successful `LoadYear` for year `1900 + J` the slot
-consumed for day-of-year t + 1 (t below the loaded year length) holds what the readers stored in
-slot `[i][t]` of the year slot whose `JAR` is exactly `1900 + J`, and `JTAG` is that year's
-`MaxYearDays`. Together with the alignment theorems (slot `[y − y₀][doy − 1]` holds the record of
-date (y, doy)) and the lock-step theorem (day t + 1 of year 1900 + J is the calendar date of ZEIT)
-this is the chain "the day is driven by the record of its date". Partial: the composition of the
-three over a whole run is not proved here; it is what the run-level correspondence and the
-whole-run search check on every run. -/
-theorem C04_weather_of_day_partial {π : Type} (st : DState π) (cap i days t : Nat)
+/-- **Weather of one load.** After a successful `LoadYear` for year `1900 + J` the slot consumed for
+day-of-year t + 1 (t below the loaded year length) holds what the readers stored in slot `[i][t]` of
+the year slot whose `JAR` is exactly `1900 + J`, and `JTAG` is that year's `MaxYearDays`. (One link
+of the chain that `C04_weather_of_day` composes over a whole run.) -/
+theorem C04_weather_of_load {π : Type} (st : DState π) (cap i days t : Nat)
     (h : loadYear st.store cap (1900 + st.j) = some (i, days)) (ht : t < days) (ht2 : t < 366) :
     ∃ st', applyLoad st cap = some st' ∧ st'.g.getD t none = st.store.get i t ∧
       st.store.jarAt i = 1900 + st.j ∧ st'.jtag = days ∧ days = st.store.maxAt i := by
   obtain ⟨_, hj, hd⟩ := loadYear_some st.store cap (1900 + st.j) i days h
   refine ⟨{ st with jtag := days, g := gLoad st.g st.store i days }, by simp [applyLoad, h], ?_, hj, rfl, hd⟩
   simp [gLoad, List.getD_eq_getElem?_getD, ht, ht2]
+
+/-- **Weather of the day, whole run, multi-year layouts** (`ReadWeatherCSV`, `ReadWeatherCZ`: the same
+indexing statements, `readMulti`). For every series of lines with parsed, existing dates that are
+consecutive calendar days (any first day — also before the start year — any last day, any number
+of years beyond the allocated ones), every start date `smon`/`stg` of the start year `anjahr`
+(`BEGINN` and `ITAG` are its day number and day of the year, as `DateConverter` returns them), and
+every number of simulated days up to 31 December 2099: if the series has the line of the first and
+the line of the last simulated day and the year of the last day is inside the `cap` allocated
+years, then the run — readers, first `LoadYear`, and `ndays` passes of the day loop with the reload
+at every year change — returns no error, the simulated days are `BEGINN`, `BEGINN + 1`, … and on
+each of them the slot `TAG.Index` of the day arrays holds the payload of **the** line whose date is
+`KalenderDate(ZEIT)` (unique: no other line of the series has that date), with
+`1900 + J`/`TAG.Index + 1` the year and day of the year of that date. Induction over the days,
+across year changes and leap years.
+
+Hypotheses that remain, each necessary for the code as it is: gap-free valid dates (else the
+readers return an error: `C04_reader_rejects_gap…`), the first and last day covered (an uncovered
+first day inside the start year is *not* refused: `C04_uncovered_start_same_year_fails_at`; an
+uncovered later day ends the run: `C04_short_year_is_error`, `C04_missing_year_is_error`),
+`StartYear` = year of the start date (else `C04_start_year_mismatch_ends_run`), dates within
+1901 … 2099 (the range of the calendar model, C12). Here the payload is abstract (what the reader
+puts into the slot); `C04_weather_of_day_normalised` is the same statement with the two in-place
+normalisation passes between reading and loading in place. -/
+theorem C04_weather_of_day {π : Type} (recs : List (Rec π)) (anjahr cap smon stg ndays : Nat) (r0 rL : Rec π)
+    (hv : ∀ r ∈ recs, ValidRec r) (hg : GapFree recs)
+    (hstart : ValidDate (anjahr - 1900) smon stg) (hn : 0 < ndays)
+    (hend : masdat (anjahr - 1900) smon stg + ndays ≤ 72685)
+    (h0 : RecordOfDay recs (masdat (anjahr - 1900) smon stg) r0)
+    (hL : RecordOfDay recs (masdat (anjahr - 1900) smon stg + (ndays - 1)) rL) (hcap : rL.year < anjahr + cap) :
+    ∃ days, runMulti recs anjahr cap (masdat (anjahr - 1900) smon stg) (ztdat (anjahr - 1900) smon stg) ndays = some days ∧
+      days.map (·.zeit) = List.range' (masdat (anjahr - 1900) smon stg) ndays ∧
+      ∀ d ∈ days, ∃ r, RecordOfDay recs d.zeit r ∧ d.val = some r.val ∧ r.year = 1900 + d.j ∧ r.doy = d.tagNum ∧
+        ∀ r', RecordOfDay recs d.zeit r' → r' = r := by
+  have hb1 : 1 ≤ masdat (anjahr - 1900) smon stg := by
+    have hd0 := isDay_of_date hstart
+    have := hd0.2.2.2.2; have := masdat_jan1 (anjahr - 1900); have := hd0.2.2.1; omega
+  have hcov := covered_of_endpoints recs hv hg _ ndays hb1 hn hend r0 rL h0 hL
+  obtain ⟨days, hrun, hz, hall⟩ := runMulti_weather_of_day recs anjahr cap smon stg ndays hv hg hstart hn hend
+    (fun k hk => by obtain ⟨r, hr, hy⟩ := hcov k hk; exact ⟨r, hr, by omega⟩)
+  refine ⟨days, hrun, hz, ?_⟩
+  intro d hd
+  obtain ⟨r, hr, a, b, c⟩ := hall d hd
+  exact ⟨r, hr, a, b, c, fun r' hr' => recordOfDay_unique hg hr hr'⟩
+
+/-- **Weather of the day, whole run, one file per year** (`WetterK`, layout 0). Every year from the
+start year to the year of the last simulated day has a year file whose lines are numbered 1, 2, …, n
+(n ≤ days of that year; `vals y` are their payloads), the years before the last one are complete and
+the last one reaches the last simulated day. Then the run — `WetterK` + `LoadYear` before the loop
+and again at every year change — returns no error, the simulated days are `BEGINN`, `BEGINN + 1`, …
+and each of them consumes line number `ztDat(KalenderDate(ZEIT))` of the file of the year of
+`KalenderDate(ZEIT)`. Every start date, every number of days up to 31 December 2099. -/
+theorem C04_weather_of_day_yearfiles {π : Type} (files : Nat → Option (List (Nat × π))) (vals : Nat → List π)
+    (anjahr smon stg ndays yL monL tgL : Nat)
+    (hstart : ValidDate (anjahr - 1900) smon stg) (hn : 0 < ndays)
+    (hend : masdat (anjahr - 1900) smon stg + ndays ≤ 72685)
+    (hlast : kalenderDate (masdat (anjahr - 1900) smon stg + (ndays - 1)) = some (yL, monL, tgL))
+    (hfiles : ∀ y, anjahr ≤ y → y ≤ yL → files y = some (numberFrom 1 (vals y)) ∧ (vals y).length ≤ daysInYear y)
+    (hfull : ∀ y, anjahr ≤ y → y < yL → (vals y).length = daysInYear y)
+    (hreach : ztdat (yL - 1900) monL tgL ≤ (vals yL).length) :
+    ∃ days, runPerYear files anjahr (masdat (anjahr - 1900) smon stg) (ztdat (anjahr - 1900) smon stg) ndays = some days ∧
+      days.map (·.zeit) = List.range' (masdat (anjahr - 1900) smon stg) ndays ∧
+      ∀ d ∈ days, ∃ mon tg, kalenderDate d.zeit = some (1900 + d.j, mon, tg) ∧ ztdat d.j mon tg = d.tagNum ∧
+        ∃ h : d.tagNum - 1 < (vals (1900 + d.j)).length, d.val = some (vals (1900 + d.j))[d.tagNum - 1] :=
+  runPerYear_weather_of_day files vals anjahr smon stg ndays hstart hn hend
+    (yearfiles_covered files vals anjahr smon stg ndays yL monL tgL hstart hn hend hlast hfiles hfull hreach)
+
+/-- **The two in-place passes, cell by cell** (`replaceMissingValues`, then `transformWeatherData`,
+over the `yrz` year slots read). A cell `[y][i]` of a year slot in use ends with
+`transformPure` (leap flag of `JAR[y]`, day of the year `i + 1`) of the *filled* cell, and the filled
+cell is `fillPure` of the raw cell, of the **filled** previous neighbour and of the **raw** next
+neighbour (the first pass runs front to back in place); the neighbours are the cells at `prevPos` /
+`nextPos` (`C04_neighbours_mid_year`, `C04_prev_neighbour_year_start`,
+`C04_neighbour_mean_at_year_end`); `JAR` and `MaxYearDays` are untouched. No cell is moved: the
+normalised value stays in the slot of its date. -/
+theorem C04_normalise_cell (nv : ℚ) (corr : List ℚ) (yrz : Nat) (s : Store (Day ℚ)) (y i : Nat)
+    (hy : y < yrz) (hi : i < s.maxAt y) :
+    cellAt (normalise nv corr yrz s) y i =
+      normPure nv corr (daysInYear (s.jarAt y) == 366) i (cellAt s y i)
+        (neighbours ((List.range yrz).map s.maxAt) yrz (filled nv yrz s) s y i) ∧
+    (∀ k, (normalise nv corr yrz s).maxAt k = s.maxAt k ∧ (normalise nv corr yrz s).jarAt k = s.jarAt k) := by
+  obtain ⟨n1, n2⟩ := normalise_cell nv corr yrz s y i hy hi
+  exact ⟨by rw [n1, n2]; rfl, normalise_maxAt nv corr yrz s⟩
+
+/-- **Normalisation only**: whatever the neighbours, the normalised value of a record `c` on day of
+the year `i + 1` has precipitation = (missing → 0, else value) / 10 · factor of `corrMonth`, PAR =
+(missing → 0, else global radiation) / 2, wind = max(wind, 0.5); temperature, saturation deficit and
+sunshine duration that are present are consumed unchanged; a missing one with both neighbours
+present becomes their mean. -/
+theorem C04_normalisation_only (nv : ℚ) (corr : List ℚ) (leap : Bool) (i : Nat) (c : Day ℚ) (pn : Option (Day ℚ × Day ℚ)) :
+    (normPure nv corr leap i c pn).reg = (if c.reg = nv then 0 else c.reg) / 10 * corr.getD (corrMonth (corrDoy leap (i + 1))) 0 ∧
+    (normPure nv corr leap i c pn).radi = (if c.radi = nv then 0 else c.radi) / 2 ∧
+    (normPure nv corr leap i c pn).win = (if c.win < 0.5 then 0.5 else c.win) ∧
+    (c.tmp ≠ nv → (normPure nv corr leap i c pn).tmp = c.tmp) ∧
+    (c.verd ≠ nv → (normPure nv corr leap i c pn).verd = c.verd) ∧
+    (c.sund ≠ nv → (normPure nv corr leap i c pn).sund = c.sund) ∧
+    (∀ p n, pn = some (p, n) → c.tmp = nv → p.tmp ≠ nv → n.tmp ≠ nv → (normPure nv corr leap i c pn).tmp = (p.tmp + n.tmp) / 2) ∧
+    (∀ p n, pn = some (p, n) → c.verd = nv → p.verd ≠ nv → n.verd ≠ nv → (normPure nv corr leap i c pn).verd = (p.verd + n.verd) / 2) := by
+  obtain ⟨a1, a2, a3⟩ := normPure_local nv corr leap i c pn
+  obtain ⟨b1, b2, b3⟩ := normPure_present nv corr leap i c pn
+  refine ⟨?_, ?_, ?_, b1, b2, b3, ?_, ?_⟩
+  · rw [a1]; simp [regenT, fillZero]
+  · rw [a2]; simp [parT, fillZero]
+  · rw [a3]; rfl
+  · intro p n e; subst e; exact (normPure_mean nv corr leap i c p n).1
+  · intro p n e; subst e; exact (normPure_mean nv corr leap i c p n).2.1
+
+/-- **Weather of the day = the normalised record of its date — whole run, multi-year layouts.**
+Same quantifiers and hypotheses as `C04_weather_of_day`, with the two normalisation passes between
+reading and loading in place (`runMultiN`): the run returns no error, and on every simulated day
+the slot `TAG.Index` holds `normPure` of **the** line whose date is `KalenderDate(ZEIT)` — i.e.
+(`C04_normalisation_only`) its precipitation / 10 times the factor **of the month of that date**
+(leap years included), half its global radiation, its wind floored at 0.5 m/s, its temperature,
+saturation deficit and sunshine duration where present, and otherwise the value the first pass
+derives from the neighbour cells `pn`. -/
+theorem C04_weather_of_day_normalised (nv : ℚ) (corr : List ℚ) (recs : List (Rec (Day ℚ)))
+    (anjahr cap smon stg ndays : Nat) (r0 rL : Rec (Day ℚ))
+    (hv : ∀ r ∈ recs, ValidRec r) (hg : GapFree recs)
+    (hstart : ValidDate (anjahr - 1900) smon stg) (hn : 0 < ndays)
+    (hend : masdat (anjahr - 1900) smon stg + ndays ≤ 72685)
+    (h0 : RecordOfDay recs (masdat (anjahr - 1900) smon stg) r0)
+    (hL : RecordOfDay recs (masdat (anjahr - 1900) smon stg + (ndays - 1)) rL) (hcap : rL.year < anjahr + cap) :
+    ∃ days, runMultiN nv corr recs anjahr cap (masdat (anjahr - 1900) smon stg) (ztdat (anjahr - 1900) smon stg) ndays = some days ∧
+      days.map (·.zeit) = List.range' (masdat (anjahr - 1900) smon stg) ndays ∧
+      ∀ d ∈ days, ∃ r mon tg pn, RecordOfDay recs d.zeit r ∧ (∀ r', RecordOfDay recs d.zeit r' → r' = r) ∧
+        kalenderDate d.zeit = some (r.year, mon, tg) ∧ r.year = 1900 + d.j ∧ r.doy = d.tagNum ∧
+        d.val = some (normPure nv corr (daysInYear r.year == 366) (r.doy - 1) r.val pn) ∧
+        (normPure nv corr (daysInYear r.year == 366) (r.doy - 1) r.val pn).reg =
+          (if r.val.reg = nv then 0 else r.val.reg) / 10 * corr.getD (mon - 1) 0 := by
+  have hb1 : 1 ≤ masdat (anjahr - 1900) smon stg := by
+    have hd0 := isDay_of_date hstart
+    have := hd0.2.2.2.2; have := masdat_jan1 (anjahr - 1900); have := hd0.2.2.1; omega
+  have hcov := covered_of_endpoints recs hv hg _ ndays hb1 hn hend r0 rL h0 hL
+  obtain ⟨days, hrun, hz, hall⟩ := runMultiN_weather_of_day nv corr recs anjahr cap smon stg ndays hv hg hstart hn hend
+    (fun k hk => by obtain ⟨r, hr, hy⟩ := hcov k hk; exact ⟨r, hr, by omega⟩)
+  refine ⟨days, hrun, hz, ?_⟩
+  intro d hd
+  obtain ⟨r, mon, tg, pn, hr, hk, e1, e2, hval, hmon⟩ := hall d hd
+  refine ⟨r, mon, tg, pn, hr, fun r' hr' => recordOfDay_unique hg hr hr', hk, e1, e2, hval, ?_⟩
+  rw [(C04_normalisation_only nv corr _ _ r.val pn).1, hmon]
+
+/-- **… one file per year** (`WetterK` runs both passes on the year just read): same hypotheses as
+`C04_weather_of_day_yearfiles`; every simulated day consumes `normPure` of line number
+`ztDat(KalenderDate(ZEIT))` of the file of that year, with the precipitation factor of the month of
+the date. -/
+theorem C04_weather_of_day_normalised_yearfiles (nv : ℚ) (corr : List ℚ) (files : Nat → Option (List (Nat × Day ℚ)))
+    (vals : Nat → List (Day ℚ)) (anjahr smon stg ndays yL monL tgL : Nat)
+    (hstart : ValidDate (anjahr - 1900) smon stg) (hn : 0 < ndays)
+    (hend : masdat (anjahr - 1900) smon stg + ndays ≤ 72685)
+    (hlast : kalenderDate (masdat (anjahr - 1900) smon stg + (ndays - 1)) = some (yL, monL, tgL))
+    (hfiles : ∀ y, anjahr ≤ y → y ≤ yL → files y = some (numberFrom 1 (vals y)) ∧ (vals y).length ≤ daysInYear y)
+    (hfull : ∀ y, anjahr ≤ y → y < yL → (vals y).length = daysInYear y)
+    (hreach : ztdat (yL - 1900) monL tgL ≤ (vals yL).length) :
+    ∃ days, runPerYearN nv corr files anjahr (masdat (anjahr - 1900) smon stg) (ztdat (anjahr - 1900) smon stg) ndays = some days ∧
+      days.map (·.zeit) = List.range' (masdat (anjahr - 1900) smon stg) ndays ∧
+      ∀ d ∈ days, ∃ mon tg pn, kalenderDate d.zeit = some (1900 + d.j, mon, tg) ∧ ztdat d.j mon tg = d.tagNum ∧
+        ∃ h : d.tagNum - 1 < (vals (1900 + d.j)).length,
+          d.val = some (normPure nv corr (daysInYear (1900 + d.j) == 366) (d.tagNum - 1) (vals (1900 + d.j))[d.tagNum - 1] pn) ∧
+          corrMonth (corrDoy (daysInYear (1900 + d.j) == 366) (d.tagNum - 1 + 1)) = mon - 1 :=
+  runPerYearN_weather_of_day nv corr files vals anjahr smon stg ndays yL monL tgL hstart hn hend hlast hfiles hfull hreach
+
+/-- The same for the multi-year layouts with the covering stated day by day (what the proof of
+`C04_weather_of_day` reduces to): every simulated day has its line in the series. -/
+theorem C04_weather_of_day_daywise {π : Type} (recs : List (Rec π)) (anjahr cap smon stg ndays : Nat)
+    (hv : ∀ r ∈ recs, ValidRec r) (hg : GapFree recs)
+    (hstart : ValidDate (anjahr - 1900) smon stg) (hn : 0 < ndays)
+    (hend : masdat (anjahr - 1900) smon stg + ndays ≤ 72685)
+    (hcov : ∀ k, k < ndays → ∃ r, RecordOfDay recs (masdat (anjahr - 1900) smon stg + k) r ∧ r.year < anjahr + cap) :
+    ∃ days, runMulti recs anjahr cap (masdat (anjahr - 1900) smon stg) (ztdat (anjahr - 1900) smon stg) ndays = some days ∧
+      days.map (·.zeit) = List.range' (masdat (anjahr - 1900) smon stg) ndays ∧
+      ∀ d ∈ days, ∃ r, RecordOfDay recs d.zeit r ∧ d.val = some r.val ∧ r.year = 1900 + d.j ∧ r.doy = d.tagNum :=
+  runMulti_weather_of_day recs anjahr cap smon stg ndays hv hg hstart hn hend hcov
 
 /-- Slots at or above the loaded year length keep what an earlier year left there (the copy loop of
 `LoadYear` stops at `MaxYearDays`); a run never consumes them: it ends at the latest when the day
@@ -413,5 +584,49 @@ example : ((replaceMissing (α := Int) (-99) [2, 3] 2
     (fun row => row.map (·.sund))) = [[2, 3], [4, 10, 1]] := by decide
 -- former witness F19: 29 February 2000 gets February's factor (index 1), 31 March 2000 March's
 example : corrMonth (corrDoy true (ztdat 100 2 29)) = 1 ∧ corrMonth (corrDoy true (ztdat 100 3 31)) = 2 := by decide
+
+/-! ### non-vacuity of `C04_weather_of_day`: a series across the leap year 2000 that starts before the start year -/
+
+/-- 30 December 1999 … 2 January 2001 (370 lines), payload = line number -/
+def leapSeries : List (Rec Nat) :=
+  (List.range 370).map fun i =>
+    if i < 2 then ⟨1999, 364 + i, i + 1, false⟩ else if i < 368 then ⟨2000, i - 1, i + 1, false⟩ else ⟨2001, i - 367, i + 1, false⟩
+
+-- the hypotheses of `C04_weather_of_day` hold for StartYear 2000, start date 1 January 2000, 368 days (to 2 January 2001), 2 year slots
+example : (∀ r ∈ leapSeries, ValidRec r) ∧ GapFree leapSeries := by decide +kernel
+example : ValidDate (2000 - 1900) 1 1 ∧ masdat (2000 - 1900) 1 1 + 368 ≤ 72685 := by unfold ValidDate; decide
+example : RecordOfDay leapSeries (masdat (2000 - 1900) 1 1) ⟨2000, 1, 3, false⟩ :=
+  ⟨by decide +kernel, 1, 1, by decide, by decide⟩
+example : RecordOfDay leapSeries (masdat (2000 - 1900) 1 1 + (368 - 1)) ⟨2001, 2, 370, false⟩ :=
+  ⟨by decide +kernel, 1, 2, by decide, by decide⟩
+-- … and the run it speaks about, evaluated: 28/29 February, 1 March, 31 December 2000, 1/2 January 2001 consume lines 61, 62, 63, 368, 369, 370
+example : (runMulti leapSeries 2000 2 (masdat 100 1 1) 1 368).map
+    (fun ds => [58, 59, 60, 365, 366, 367].map fun k => (ds.getD k ⟨0, 0, 0, 0, none⟩).val) =
+    some [some 61, some 62, some 63, some 368, some 369, some 370] := by decide +kernel
+-- layout 0: the year files of 2000 (366 lines) and 2001 (2 lines), run 31 December 2000 … 2 January 2001
+example : ∀ y, 2000 ≤ y → y ≤ 2001 →
+    (fun y => if y = 2000 then some (numberFrom 1 (List.range 366)) else if y = 2001 then some (numberFrom 1 [7, 8]) else none) y
+      = some (numberFrom 1 ((fun y => if y = 2000 then List.range 366 else [7, 8]) y)) ∧
+    ((fun y => if y = 2000 then List.range 366 else [7, 8]) y).length ≤ daysInYear y := by
+  intro y h1 h2
+  have : y = 2000 ∨ y = 2001 := by omega
+  rcases this with rfl | rfl <;> decide +kernel
+example : kalenderDate (masdat (2000 - 1900) 12 31 + (3 - 1)) = some (2001, 1, 2) ∧ ztdat (2001 - 1900) 1 2 ≤ ([7, 8] : List Nat).length := by decide
+
+/-! ### non-vacuity of `C04_weather_of_day_normalised`: 31 December 1999 … 2 January 2000 with missing values -/
+
+/-- payload (tmp, verd, sund, radi, reg, win); −99.9 = missing -/
+def wxD : List (Rec (Day ℚ)) :=
+  [⟨1999, 365, ⟨1, -99.9, 3, 10, 4, 0.2⟩, false⟩, ⟨2000, 1, ⟨2, 5, -99.9, 12, 8, 3⟩, false⟩,
+   ⟨2000, 2, ⟨-99.9, 6, 4, -99.9, 0, 1⟩, false⟩]
+
+example : (∀ r ∈ wxD, ValidRec r) ∧ GapFree wxD := by decide
+example : RecordOfDay wxD (masdat (2000 - 1900) 1 1) ⟨2000, 1, ⟨2, 5, -99.9, 12, 8, 3⟩, false⟩ ∧
+    RecordOfDay wxD (masdat (2000 - 1900) 1 1 + (2 - 1)) ⟨2000, 2, ⟨-99.9, 6, 4, -99.9, 0, 1⟩, false⟩ :=
+  ⟨⟨by simp [wxD], 1, 1, by decide, by decide⟩, ⟨by simp [wxD], 1, 2, by decide, by decide⟩⟩
+-- what 1 January 2000 consumes: 8 mm · January's factor 1.1 / 10, PAR 6, wind 3, temperature 2, saturation deficit 5
+example : (normPure (-99.9 : ℚ) [1.1, 1, 1, 1, 1, 1, 1, 1, 1, 1, 1, 1] true 0 ⟨2, 5, -99.9, 12, 8, 3⟩ none).reg = 0.88 ∧
+    (normPure (-99.9 : ℚ) [1.1, 1, 1, 1, 1, 1, 1, 1, 1, 1, 1, 1] true 0 ⟨2, 5, -99.9, 12, 8, 3⟩ none).radi = 6 := by
+  constructor <;> norm_num [normPure, transformPure, fillPure, fillZero, regenT, parT, corrMonth, corrDoy]
 
 end Hermes.Weather
